@@ -137,7 +137,8 @@ BREAK = [
     ("reset-late", ["C12"], P, "        self._reset_classes()\n\n        # Update the class counter\n        self.counter = PEP.counter\n        PEP.counter += 1\n",
      "        # Update the class counter\n        self.counter = PEP.counter\n        PEP.counter += 1\n        self._reset_classes()\n", "R-RESET"),
     ("fallback-under-verbose", ["C12"], P, "                      ' switching to cvxpy\\033[0m'.format(wrapper_name))\n            wrapper_name = \"cvxpy\"", "                      ' switching to cvxpy\\033[0m'.format(wrapper_name))\n                wrapper_name = \"cvxpy\"", "R-VERBOSE"),
-    ("point-eval-lru-cache", ["C12", "C13"], PT, "    def eval(self):", "    from functools import lru_cache as _memoised\n\n    @_memoised(maxsize=None)\n    def eval(self):", "R-RESET"),
+    ("point-eval-lru-cache", ["C12"], PT, "    def eval(self):", "    from functools import lru_cache as _memoised\n\n    @_memoised(maxsize=None)\n    def eval(self):", "R-RESET"),
+    ("point-eval-lru-cache-resolve", ["C13"], PT, "    def eval(self):", "    from functools import lru_cache as _memoised\n\n    @_memoised(maxsize=None)\n    def eval(self):", "R-MEMO"),
     ("translator-memo-reads-counter", ["C12"], TR, "def expression_to_matrices(expression):",
      "def _empty_gram():\n    return np.zeros((Point.counter, Point.counter))\n\n\n_cached_empty_gram = __import__('functools').lru_cache(maxsize=1)(_empty_gram)\n\n\ndef expression_to_matrices(expression):", "R-RESET"),
     ("default-list-written", ["C12"], P, "    def add_psd_matrix(self, matrix_of_expressions, name=None):", "    def add_psd_matrix(self, matrix_of_expressions, name=None, _log=[]):\n        _log.append(name)", "R-RESET"),
